@@ -28,8 +28,9 @@ LEVEL = 'model_checking'
 RULE = ('repository shapes of gverif/repogen.py — quick: one varying package over all 64 component subsets on '
         '{1,2}x{1,2} grids x repository level {nothing, everything}; all-alike grids 0..2x0..2; all 128 subsets of the '
         'metadata components x others {none, all}; all 1024 subsets of the other repository-level components x '
-        'metadata {none, all}; look-alike extras (3224 trees). thorough: varying package at every position of 4x4 '
-        '(corners on smaller grids), all-alike 0..4x0..4, every subset of 16 repository-level components (2^16). '
+        'metadata {none, all}; look-alike extras (3224 trees). thorough: additionally varying package at every '
+        'position of 4x4 (first/last on smaller grids), all-alike 0..4x0..4, every subset of 16 repository-level '
+        'components (2^16) with {ebuild, old-ebuild reversed}. '
         'Each tree x create with {default, ebuild, old-ebuild under sorted AND reversed scandir order}; package/alike/'
         'odd families x overrides {-H SHA1, -H SHA1 -c 0, -c 10^6, -c S and S+1 for S = size of a real sub-Manifest, '
         'library sort=False/True, library defaults}; package family x {6 edits -> update} x profile and all 6 ordered '
@@ -568,11 +569,15 @@ def step(op, profile, o=None, order=None, edit=None):
 
 
 def base_cases(sh, seed, tier, fam):
+    if fam == 'repo':        # the 2^16 family of the thorough tier
+        yield 'create', [step('create', 'ebuild')]
+        yield 'create', [step('create', 'old-ebuild', order='reversed')]
+        return
     yield 'create', [step('create', 'default')]
     yield 'create', [step('create', 'ebuild')]
     yield 'create', [step('create', 'old-ebuild', order='sorted')]
     yield 'create', [step('create', 'old-ebuild', order='reversed')]
-    if fam != 'repo':
+    if fam in ('pkg', 'alike', 'odd'):
         yield 'create', [step('create', 'ebuild', order='reversed')]
 
 
@@ -639,16 +644,23 @@ def run_shard(spec, tier, seed, scratch):
             stats.counters['shapes_with_every_optional_component'] += 1
         gens = [base_cases(sh, seed, tier, fam)]
         full_repo = set(sh['repo']) >= set(repogen.REPO)
-        if fam in ('pkg', 'odd') or (fam == 'alike' and (full_repo or tier == 'thorough')):
-            gens.append(override_cases(sh, seed))
         grid = (len(sh['cats']), max([len(c) for c in sh['cats']] or [0]))
-        seq = fam in ('pkg', 'odd') and ((full_repo and grid in ((1, 1), (2, 2))) or grid == (1, 1))
-        if tier == 'thorough':
-            seq = fam in ('pkg', 'odd', 'alike')
+        small = grid in ((1, 1), (1, 2), (2, 1), (2, 2))
+        if tier == 'quick':
+            over = fam in ('pkg', 'odd') or (fam == 'alike' and full_repo)
+            seq = fam in ('pkg', 'odd') and ((full_repo and grid in ((1, 1), (2, 2))) or grid == (1, 1))
+        else:
+            over = fam in ('pkg', 'alike', 'odd') and (grid != (4, 4) or full_repo)
+            first_varies = all(tuple(p) == repogen.PKG_FULL for c in sh['cats'] for p in c[1:]) and \
+                all(tuple(c[0]) == repogen.PKG_FULL for c in sh['cats'][1:])
+            seq = fam == 'odd' or (fam == 'pkg' and (small or (full_repo and grid == (4, 4) and first_varies))) or \
+                (fam == 'alike' and full_repo and grid[0] == grid[1])
+        if over:
+            gens.append(override_cases(sh, seed))
         if seq:
             gens.append(sequence_cases(sh, seed, tier))
             gens.append(watermark_cases(sh, seed, scratch))
-        elif fam == 'meta' and (tier == 'thorough' or not (set(sh['repo']) & set(repogen.OTHER))):
+        elif fam == 'meta' and not (set(sh['repo']) & set(repogen.OTHER)):
             gens.append(c for c in sequence_cases(sh, seed, tier) if c[0] == 'profile_switch' or
                         c[1][-1].get('edit') == 'add_ts')
         for kind, steps in itertools.chain(*gens):
